@@ -47,7 +47,7 @@ accumulator(other.accumulator),
 bit_matrix(other.bit_matrix)
 {
   if (accumulator != nullptr) {
-    accumulator = new (AllocCpc(accumulator->get_allocator()).allocate(1)) cpc_sketch_alloc<A>(*other.accumulator);
+    accumulator = new (AllocCpc(bit_matrix.get_allocator()).allocate(1)) cpc_sketch_alloc<A>(*other.accumulator);
   }
 }
 
@@ -64,7 +64,9 @@ bit_matrix(std::move(other.bit_matrix))
 template<typename A>
 cpc_union_alloc<A>::~cpc_union_alloc() {
   if (accumulator != nullptr) {
-    AllocCpc allocator(accumulator->get_allocator());
+    // the accumulator object is owned by the union's allocator; the allocator inside the sketch
+    // may have been replaced by assignment from an input sketch
+    AllocCpc allocator(bit_matrix.get_allocator());
     accumulator->~cpc_sketch_alloc<A>();
     allocator.deallocate(accumulator, 1);
   }
@@ -76,7 +78,7 @@ cpc_union_alloc<A>& cpc_union_alloc<A>::operator=(const cpc_union_alloc<A>& othe
   std::swap(lg_k, copy.lg_k);
   seed = copy.seed;
   std::swap(accumulator, copy.accumulator);
-  bit_matrix = std::move(copy.bit_matrix);
+  std::swap(bit_matrix, copy.bit_matrix); // the old accumulator leaves together with its allocator
   return *this;
 }
 
@@ -85,7 +87,7 @@ cpc_union_alloc<A>& cpc_union_alloc<A>::operator=(cpc_union_alloc<A>&& other) no
   std::swap(lg_k, other.lg_k);
   seed = other.seed;
   std::swap(accumulator, other.accumulator);
-  bit_matrix = std::move(other.bit_matrix);
+  std::swap(bit_matrix, other.bit_matrix); // the old accumulator leaves together with its allocator
   return *this;
 }
 
@@ -244,8 +246,8 @@ cpc_sketch_alloc<A> cpc_union_alloc<A>::get_result_from_bit_matrix() const {
 
 template<typename A>
 void cpc_union_alloc<A>::switch_to_bit_matrix() {
+  AllocCpc allocator(bit_matrix.get_allocator()); // the one that issued the accumulator object
   bit_matrix = accumulator->build_bit_matrix();
-  AllocCpc allocator(accumulator->get_allocator());
   accumulator->~cpc_sketch_alloc<A>();
   allocator.deallocate(accumulator, 1);
   accumulator = nullptr;
